@@ -462,6 +462,29 @@ impl<'a> Walker<'a> {
     }
 }
 
+/// (kind, parent kind, grandparent kind) of every node above the token level (trivia excluded).
+fn parent_contexts<'a>(
+    db: &'a SimpleParserDatabase,
+    n: &SyntaxNode<'a>,
+    parent: u64,
+    grand: u64,
+    set: &mut std::collections::HashSet<u64>,
+    names: &mut std::collections::HashMap<u64, String>,
+) {
+    let kind = n.kind(db);
+    if kind == SyntaxKind::Trivia || n.text(db).is_some() {
+        return;
+    }
+    let k = kind as u64 + 1;
+    set.insert(k * 1_000_000 + parent * 1_000 + grand);
+    if parent != 0 {
+        names.entry(k * 1_000 + parent).or_insert_with(|| format!("{:?}<{:?}", kind, n.parent_kind(db).unwrap()));
+    }
+    for c in n.get_children(db) {
+        parent_contexts(db, c, k, parent, set, names);
+    }
+}
+
 /// A comment that directly follows the text of a token (no whitespace between them).
 fn has_glued_comment<'a>(db: &'a SimpleParserDatabase, n: &SyntaxNode<'a>) -> bool {
     if n.kind(db).is_terminal() {
@@ -490,6 +513,24 @@ fn drop_token_tree_trailing_commas(items: Vec<Item>) -> (Vec<Item>, usize) {
     let n = items.len();
     let mut i = 0;
     while i < n {
+        // inside token trees the `::` directly before `<` (generic arguments) is optional in type
+        // position and the formatter drops it there; token trees carry no type/expression
+        // distinction, so it is ignored on both sides
+        if matches!(&items[i], Item::Open(k) if k == "TokenTreeLeaf")
+            && i + 2 < n
+            && matches!(&items[i + 1], Item::Tok(t) if t == "TerminalColonColon:::")
+            && items[i + 2] == Item::Close
+        {
+            let mut j = i + 3;
+            while j < n && matches!(&items[j], Item::Close | Item::Open(_) | Item::Cw(..)) {
+                j += 1;
+            }
+            if matches!(items.get(j), Some(Item::Tok(t)) if t == "TerminalLT:<") {
+                dropped += 1;
+                i += 3;
+                continue;
+            }
+        }
         if matches!(&items[i], Item::Open(k) if k == "TokenTreeLeaf") {
             // a leaf holding exactly one comma (comments attached to it stay)
             let mut e = i + 1;
@@ -604,6 +645,10 @@ pub struct Verdict {
     pub stats: Value,
     /// distinct pairs of adjacent code terminal kinds of the input
     pub kind_pairs: Vec<String>,
+    /// distinct (node kind, parent kind, grandparent kind) of the input tree, as k*10^6 + p*10^3 + g
+    /// (0 = none), with the names of the (kind, parent) pairs
+    pub parent_ctx: Vec<u64>,
+    pub parent_ctx_names: Vec<(String, u64)>,
 }
 
 /// Decides C11 for one (text, config) on the real implementation.
@@ -614,7 +659,7 @@ pub fn check(text: &str, cfg: Cfg) -> Verdict {
 /// The oracle with the formatter's answer replaced by `tamper(answer)` (self-test of the
 /// oracle's sensitivity: every tampering must be reported, and not as a known finding).
 pub fn check_tampered(text: &str, cfg: Cfg, tamper: Option<&dyn Fn(&str) -> Option<String>>) -> Verdict {
-    let mut v = Verdict { parsed: false, fails: vec![], out: String::new(), stats: json!({}), kind_pairs: vec![] };
+    let mut v = Verdict { parsed: false, fails: vec![], out: String::new(), stats: json!({}), kind_pairs: vec![], parent_ctx: vec![], parent_ctx_names: vec![] };
     let r = catch(|| {
         let db = SimpleParserDatabase::default();
         let db = &db;
@@ -623,9 +668,12 @@ pub fn check_tampered(text: &str, cfg: Cfg, tamper: Option<&dyn Fn(&str) -> Opti
             return None;
         }
         let c_in = content(db, &root, cfg);
-        Some((c_in.full, c_in.n_tokens, c_in.n_comments, c_in.n_comment_words, c_in.n_opt_commas, c_in.n_use_items, c_in.n_trailing_comments, c_in.comment_texts, c_in.n_header_comment_before_use, c_in.has_macro_decl, c_in.n_mid_construct_comments, c_in.kind_pairs))
+        let mut ctx_set: std::collections::HashSet<u64> = Default::default();
+        let mut ctx_names: std::collections::HashMap<u64, String> = Default::default();
+        parent_contexts(db, &root, 0, 0, &mut ctx_set, &mut ctx_names);
+        Some((c_in.full, c_in.n_tokens, c_in.n_comments, c_in.n_comment_words, c_in.n_opt_commas, c_in.n_use_items, c_in.n_trailing_comments, c_in.comment_texts, c_in.n_header_comment_before_use, c_in.has_macro_decl, c_in.n_mid_construct_comments, c_in.kind_pairs, ctx_set, ctx_names))
     });
-    let (in_items, n_tokens, n_comments, n_cw, n_oc, n_use, n_trail_in, cm_in, hdr_in, has_macro, n_mid_in, pairs_in) = match r {
+    let (in_items, n_tokens, n_comments, n_cw, n_oc, n_use, n_trail_in, cm_in, hdr_in, has_macro, n_mid_in, pairs_in, ctx_set, ctx_names) = match r {
         Ok(Some(x)) => x,
         Ok(None) => return v,
         Err(m) => {
@@ -636,6 +684,8 @@ pub fn check_tampered(text: &str, cfg: Cfg, tamper: Option<&dyn Fn(&str) -> Opti
     };
     v.parsed = true;
     v.kind_pairs = pairs_in.iter().map(|(a, b)| format!("{a:?}>{b:?}")).collect();
+    v.parent_ctx = ctx_set.into_iter().collect();
+    v.parent_ctx_names = ctx_names.into_iter().map(|(k, n)| (n, k)).collect();
     // f(t)
     let f1 = catch(|| {
         let db = SimpleParserDatabase::default();
